@@ -398,6 +398,10 @@ pub fn fillers() -> Vec<Filler> {
         Filler { build: |_| Repeat(bx(Lit('a')), 2, Some(2), Q::Greedy) },
         Filler { build: |_| Repeat(bx(Lit('a')), 1, Some(2), Q::Greedy) },
         Filler { build: |_| Repeat(bx(Lit('a')), 1, Some(2), Q::Lazy) },
+        Filler { build: |_| Repeat(bx(Lit('a')), 1, Some(1), Q::Lazy) },
+        Filler { build: |_| Repeat(bx(Lit('a')), 1, Some(1), Q::Greedy) },
+        Filler { build: |_| Repeat(bx(Alt(vec![Lit('a'), ab()])), 1, Some(1), Q::Lazy) },
+        Filler { build: |_| Repeat(bx(Lit('a')), 0, Some(0), Q::Greedy) },
         Filler { build: |_| Repeat(bx(Lit('a')), 0, None, Q::Poss) },
         Filler { build: |_| Repeat(bx(Any), 0, None, Q::Greedy) },
         Filler { build: |_| Repeat(bx(Any), 0, None, Q::Lazy) },
@@ -647,7 +651,7 @@ impl<'c, 'a> RandGen<'c, 'a> {
                 if !c.repeatable() {
                     return c;
                 }
-                const R: [(u32, Option<u32>); 9] = [(0, Some(1)), (0, None), (1, None), (2, Some(2)), (1, Some(2)), (0, Some(2)), (2, None), (1, Some(3)), (0, Some(0))];
+                const R: [(u32, Option<u32>); 10] = [(0, Some(1)), (0, None), (1, None), (2, Some(2)), (1, Some(2)), (0, Some(2)), (2, None), (1, Some(3)), (0, Some(0)), (1, Some(1))];
                 let (lo, hi) = R[self.d.below(R.len())];
                 let mut q = [Q::Greedy, Q::Greedy, Q::Lazy, Q::Poss][self.d.below(4)];
                 if self.cfg.plain && q == Q::Poss {
